@@ -14,15 +14,19 @@ Variable skip : dstate -> dstate.
 
 Record reader := { rmatch : dstate -> bool; rrun : dstate -> T -> dstate * T }.
 Variable readers : list reader.
+(* an invariant of the cursor states that occur (e.g. "the pending field is a valid number, done or errored") *)
+Variable Inv : dstate -> Prop.
 
-(* contracts *)
-Hypothesis match_valid : forall r st, In r readers -> rmatch r st = true -> pfv st = true.
-Hypothesis nomatch_id : forall r st t, In r readers -> rmatch r st = false -> rrun r st t = (st, t).
-Hypothesis match_progress : forall r st t, In r readers -> rmatch r st = true ->
+(* contracts, on states satisfying the invariant *)
+Hypothesis inv_run : forall r st t, In r readers -> Inv st -> Inv (fst (rrun r st t)).
+Hypothesis inv_skip : forall st, Inv st -> Inv (skip st).
+Hypothesis match_valid : forall r st, In r readers -> Inv st -> rmatch r st = true -> pfv st = true.
+Hypothesis nomatch_id : forall r st t, In r readers -> Inv st -> rmatch r st = false -> rrun r st t = (st, t).
+Hypothesis match_progress : forall r st t, In r readers -> Inv st -> rmatch r st = true ->
    let '(st', _) := rrun r st t in (blen st' < blen st) \/ (pfv st' = false /\ blen st' <= blen st).
-Hypothesis disjoint : forall i j ri rj st, nth_error readers i = Some ri -> nth_error readers j = Some rj ->
+Hypothesis disjoint : forall i j ri rj st, Inv st -> nth_error readers i = Some ri -> nth_error readers j = Some rj ->
    rmatch ri st = true -> rmatch rj st = true -> i = j.
-Hypothesis skip_progress : forall st, pfv st = true -> blen (skip st) < blen st \/ pfv (skip st) = false.
+Hypothesis skip_progress : forall st, Inv st -> pfv st = true -> blen (skip st) < blen st \/ pfv (skip st) = false.
 
 Definition step (acc : dstate * T) (r : reader) := rrun r (fst acc) (snd acc).
 Definition pass_list (rs : list reader) st t := fold_left step rs (st, t).
@@ -56,31 +60,41 @@ Definition finish (n : nat) (rs : list reader) (prog : bool) st t :=
 Lemma loop_finish n st t : loop (S n) st t = finish n readers false st t.
 Proof. unfold finish. cbn [loop]. destruct (pass_list readers st t). reflexivity. Qed.
 
-Lemma pass_invalid rs st t : (forall r, In r rs -> In r readers) -> pfv st = false -> pass_list rs st t = (st, t).
+Lemma pass_invalid rs st t : (forall r, In r rs -> In r readers) -> Inv st -> pfv st = false -> pass_list rs st t = (st, t).
 Proof.
-  revert st t. induction rs as [|r rs IH]; intros st t Hin Hv; [reflexivity|].
+  revert st t. induction rs as [|r rs IH]; intros st t Hin Hi Hv; [reflexivity|].
   unfold pass_list. cbn [fold_left]. unfold step at 2. cbn [fst snd].
   rewrite nomatch_id.
-  - apply IH; [intros; apply Hin; now right | exact Hv].
+  - apply IH; [intros; apply Hin; now right | exact Hi | exact Hv].
   - apply Hin; now left.
-  - destruct (rmatch r st) eqn:E; [|reflexivity]. apply match_valid in E; [congruence| apply Hin; now left].
+  - exact Hi.
+  - destruct (rmatch r st) eqn:E; [|reflexivity]. apply match_valid in E; [congruence| apply Hin; now left|exact Hi].
 Qed.
 
-Lemma pass_mono rs : (forall r, In r rs -> In r readers) -> forall st t, blen (fst (pass_list rs st t)) <= blen st.
+Lemma pass_inv rs : (forall r, In r rs -> In r readers) -> forall st t, Inv st -> Inv (fst (pass_list rs st t)).
 Proof.
-  induction rs as [|r rs IH]; intros Hin st t; [cbn; lia|].
+  induction rs as [|r rs IH]; intros Hin st t Hi; [exact Hi|].
+  unfold pass_list. cbn [fold_left]. unfold step at 2. cbn [fst snd].
+  pose proof (inv_run r st t (Hin r (or_introl eq_refl)) Hi) as H1.
+  destruct (rrun r st t) as [st1 t1]. apply (IH (fun r0 H => Hin r0 (or_intror H)) st1 t1 H1).
+Qed.
+
+Lemma pass_mono rs : (forall r, In r rs -> In r readers) -> forall st t, Inv st -> blen (fst (pass_list rs st t)) <= blen st.
+Proof.
+  induction rs as [|r rs IH]; intros Hin st t Hi; [cbn; lia|].
   unfold pass_list. cbn [fold_left]. unfold step at 2. cbn [fst snd].
   destruct (rmatch r st) eqn:E.
-  - pose proof (match_progress r st t (Hin r (or_introl eq_refl)) E) as Hp.
+  - pose proof (match_progress r st t (Hin r (or_introl eq_refl)) Hi E) as Hp.
+    pose proof (inv_run r st t (Hin r (or_introl eq_refl)) Hi) as H1.
     destruct (rrun r st t) as [st1 t1].
-    specialize (IH (fun r0 H => Hin r0 (or_intror H)) st1 t1). unfold pass_list in IH. lia.
+    specialize (IH (fun r0 H => Hin r0 (or_intror H)) st1 t1 H1). unfold pass_list in IH. lia.
   - rewrite nomatch_id by (auto; apply Hin; now left).
-    apply IH. intros; apply Hin; now right.
+    apply IH; [intros; apply Hin; now right|exact Hi].
 Qed.
 
-Lemma loop_invalid n st t : pfv st = false -> loop n st t = (st, t).
+Lemma loop_invalid n st t : Inv st -> pfv st = false -> loop n st t = (st, t).
 Proof.
-  destruct n; [reflexivity|]. intros Hv. cbn [loop].
+  destruct n; [reflexivity|]. intros Hi Hv. cbn [loop].
   rewrite pass_invalid by auto. rewrite Hv. reflexivity.
 Qed.
 
@@ -108,10 +122,10 @@ Proof.
   apply in_app_or in Hin. destruct Hin; auto.
 Qed.
 
-Lemma find_at pre r rs st :
+Lemma find_at pre r rs st : Inv st ->
   readers = pre ++ r :: rs -> rmatch r st = true -> find (fun r => rmatch r st) readers = Some r.
 Proof.
-  intros Heq Hm.
+  intros Hinv Heq Hm.
   assert (Hpre: forall p, In p pre -> rmatch p st = false).
   { intros p Hp. destruct (rmatch p st) eqn:E; [|reflexivity]. exfalso.
     apply In_nth_error in Hp. destruct Hp as [i Hi].
@@ -120,18 +134,18 @@ Proof.
     { rewrite Heq. rewrite nth_error_app1; [exact Hi|exact Hlt]. }
     assert (Hj: nth_error readers (length pre) = Some r).
     { rewrite Heq. rewrite nth_error_app2 by lia. rewrite Nat.sub_diag. reflexivity. }
-    pose proof (disjoint _ _ _ _ _ Hi' Hj E Hm) as Hij. lia. }
+    pose proof (disjoint _ _ _ _ _ Hinv Hi' Hj E Hm) as Hij. lia. }
   rewrite Heq. rewrite find_skip_pre by exact Hpre. cbn. rewrite Hm. reflexivity.
 Qed.
 
 (* main generalized statement *)
-Lemma finish_eq : forall m st, blen st = m ->
+Lemma finish_eq : forall m st, blen st = m -> Inv st ->
   forall prog pre rs t n n', readers = pre ++ rs ->
   blen st + (if prog : bool then 3 else 2) <= n -> blen st + 2 <= n' ->
   (prog = false -> forall r, In r pre -> rmatch r st = false) ->
   finish n rs prog st t = loop1 n' st t.
 Proof.
-  induction m as [m IHm] using lt_wf_ind. intros st Hm.
+  induction m as [m IHm] using lt_wf_ind. intros st Hm Hinv.
   (* second level: prog false before true, via explicit two-phase *)
   assert (Hprog_false: forall pre rs t n n', readers = pre ++ rs ->
      blen st + 2 <= n -> blen st + 2 <= n' ->
@@ -145,30 +159,31 @@ Proof.
       rewrite Nat.eqb_refl.
       rewrite (find_none_suffix pre [] st) by (auto; intros ? []).
       destruct n as [|n]; [lia|].
-      destruct (skip_progress st Hv) as [Hlt|Hinv].
-      + rewrite loop_finish. eapply (IHm (blen (skip st))); [lia|reflexivity|symmetry; apply app_nil_l|lia|lia|intros _ ? []].
-      + rewrite loop_invalid, loop1_invalid by exact Hinv. reflexivity.
+      destruct (skip_progress st Hinv Hv) as [Hlt|Hinvd].
+      + rewrite loop_finish. eapply (IHm (blen (skip st))); [lia|reflexivity|apply inv_skip; exact Hinv|symmetry; apply app_nil_l|lia|lia|intros _ ? []].
+      + rewrite loop_invalid, loop1_invalid; [reflexivity|exact Hinvd|apply inv_skip; exact Hinv|exact Hinvd].
     - assert (Hin: In r readers) by (rewrite Heq; apply in_or_app; right; now left).
       destruct (rmatch r st) eqn:E.
       + (* reader matches: consumes *)
         assert (Hinrs: forall r0, In r0 rs -> In r0 readers) by (intros; rewrite Heq; apply in_or_app; right; now right).
-        pose proof (match_progress r st t Hin E) as Hp.
-        pose proof (match_valid r st Hin E) as Hv.
+        pose proof (match_progress r st t Hin Hinv E) as Hp.
+        pose proof (match_valid r st Hin Hinv E) as Hv.
+        pose proof (inv_run r st t Hin Hinv) as Hi1.
         destruct n' as [|n']; [lia|]. cbn [loop1]. rewrite Hv. cbn [negb].
-        rewrite (find_at pre r rs st Heq E).
+        rewrite (find_at pre r rs st Hinv Heq E).
         unfold finish, pass_list. cbn [fold_left]. unfold step at 2. cbn [fst snd].
-        destruct (rrun r st t) as [st1 t1] eqn:Hr.
-        destruct Hp as [Hlt|[Hinv Hle]].
-        * pose proof (pass_mono rs Hinrs st1 t1) as Hmono.
-          specialize (IHm (blen st1) ltac:(lia) st1 eq_refl true (pre ++ [r]) rs t1 n n').
+        destruct (rrun r st t) as [st1 t1] eqn:Hr. cbn [fst] in Hi1.
+        destruct Hp as [Hlt|[Hinvd Hle]].
+        * pose proof (pass_mono rs Hinrs st1 t1 Hi1) as Hmono.
+          specialize (IHm (blen st1) ltac:(lia) st1 eq_refl Hi1 true (pre ++ [r]) rs t1 n n').
           unfold finish, pass_list in IHm. unfold pass_list in Hmono.
           destruct (fold_left step rs (st1, t1)) as [st2 t2]. cbn [fst] in Hmono.
           destruct (pfv st2) eqn:Hv2; cbn [negb andb] in *.
           -- replace (Nat.eqb (blen st2) (blen st)) with false by (symmetry; apply Nat.eqb_neq; lia).
              apply IHm; [rewrite <- app_assoc; exact Heq|lia|lia|discriminate].
           -- apply IHm; [rewrite <- app_assoc; exact Heq|lia|lia|discriminate].
-        * fold (pass_list rs st1 t1). rewrite pass_invalid by auto. rewrite Hinv. cbn [negb].
-          rewrite loop1_invalid by exact Hinv. reflexivity.
+        * fold (pass_list rs st1 t1). rewrite pass_invalid by auto. rewrite Hinvd. cbn [negb].
+          rewrite loop1_invalid by exact Hinvd. reflexivity.
       + (* reader does not match *)
         unfold finish, pass_list. cbn [fold_left]. unfold step at 2. cbn [fst snd].
         rewrite nomatch_id by auto.
@@ -186,27 +201,28 @@ Proof.
   - assert (Hin: In r readers) by (rewrite Heq; apply in_or_app; right; now left).
     assert (Hinrs: forall r0, In r0 rs -> In r0 readers) by (intros; rewrite Heq; apply in_or_app; right; now right).
     destruct (rmatch r st) eqn:E.
-    + pose proof (match_progress r st t Hin E) as Hp.
-      pose proof (match_valid r st Hin E) as Hv.
+    + pose proof (match_progress r st t Hin Hinv E) as Hp.
+      pose proof (match_valid r st Hin Hinv E) as Hv.
+      pose proof (inv_run r st t Hin Hinv) as Hi1.
       destruct n' as [|n']; [lia|]. cbn [loop1]. rewrite Hv. cbn [negb].
-      rewrite (find_at pre r rs st Heq E).
+      rewrite (find_at pre r rs st Hinv Heq E).
       unfold finish, pass_list. cbn [fold_left]. unfold step at 2. cbn [fst snd].
-      destruct (rrun r st t) as [st1 t1] eqn:Hr.
-      destruct Hp as [Hlt|[Hinv Hle]].
-      * specialize (IHm (blen st1) ltac:(lia) st1 eq_refl true (pre ++ [r]) rs t1 n n').
+      destruct (rrun r st t) as [st1 t1] eqn:Hr. cbn [fst] in Hi1.
+      destruct Hp as [Hlt|[Hinvd Hle]].
+      * specialize (IHm (blen st1) ltac:(lia) st1 eq_refl Hi1 true (pre ++ [r]) rs t1 n n').
         unfold finish, pass_list in IHm. cbn [negb andb] in *.
         apply IHm; [rewrite <- app_assoc; exact Heq|lia|lia|discriminate].
-      * fold (pass_list rs st1 t1). rewrite pass_invalid by auto. rewrite Hinv. cbn [negb].
-        rewrite loop1_invalid by exact Hinv. reflexivity.
+      * fold (pass_list rs st1 t1). rewrite pass_invalid by auto. rewrite Hinvd. cbn [negb].
+        rewrite loop1_invalid by exact Hinvd. reflexivity.
     + unfold finish, pass_list. cbn [fold_left]. unfold step at 2. cbn [fst snd].
       rewrite nomatch_id by auto.
       specialize (IHrs (pre ++ [r]) t). unfold finish, pass_list in IHrs.
       apply IHrs; [rewrite <- app_assoc; exact Heq|discriminate].
 Qed.
 
-Theorem loop_equiv st t n n' : blen st + 3 <= n -> blen st + 2 <= n' -> loop n st t = loop1 n' st t.
+Theorem loop_equiv st t n n' : Inv st -> blen st + 3 <= n -> blen st + 2 <= n' -> loop n st t = loop1 n' st t.
 Proof.
-  intros Hn Hn'. destruct n as [|n]; [lia|]. rewrite loop_finish.
-  apply (finish_eq (blen st) st eq_refl false [] readers); [reflexivity|lia|lia|intros _ ? []].
+  intros Hi Hn Hn'. destruct n as [|n]; [lia|]. rewrite loop_finish.
+  apply (finish_eq (blen st) st eq_refl Hi false [] readers); [reflexivity|lia|lia|intros _ ? []].
 Qed.
 End Loop.
